@@ -21,14 +21,21 @@ type c12 struct{}
 
 func init() { props["C12"] = c12{} }
 
+// Two deviations from ISO 13818-1 were found while building this check:
+// tag 1 "K-pack": pack_header() bytes behind pack_field_length were not skipped (repaired in /repo, d723a9d);
+// tag 2 "K-sid": stream ids 0xBC 0xF0 0xF1 0xF2 0xF8 0xFF are given an optional header although Table 2-21
+// has none for them (known finding K4: a test of the suite pins the behaviour). The oracle judges both; the
+// violation text of a tagged case starts with the tag so that known_findings.json can match it.
+var c12TagName = map[int64]string{1: "K-pack", 2: "K-sid"}
+
 func (c12) Num() int { return 12 }
 
 // ---------- independent reference encoder (ISO/IEC 13818-1 2.4.3.6, 2.4.3.7, Table 2-21) ----------
 
-// isoHasOptionalHeader: stream ids whose PES packet carries the optional header (Table 2-21): all but
+// c12IsoHasOptionalHeader: stream ids whose PES packet carries the optional header (Table 2-21): all but
 // program_stream_map, padding_stream, private_stream_2, ECM, EMM, program_stream_directory, DSMCC_stream,
 // ITU-T Rec. H.222.1 type E stream.
-func isoHasOptionalHeader(sid uint8) bool {
+func c12IsoHasOptionalHeader(sid uint8) bool {
 	switch sid {
 	case 0xbc, 0xbe, 0xbf, 0xf0, 0xf1, 0xff, 0xf2, 0xf8:
 		return false
@@ -36,10 +43,10 @@ func isoHasOptionalHeader(sid uint8) bool {
 	return true
 }
 
-// libHasOptionalHeader: the two ids the library treats as header-less (padding_stream, private_stream_2).
-func libHasOptionalHeader(sid uint8) bool { return sid != 0xbe && sid != 0xbf }
+// c12LibHasOptionalHeader: the two ids the library treats as header-less (padding_stream, private_stream_2).
+func c12LibHasOptionalHeader(sid uint8) bool { return sid != 0xbe && sid != 0xbf }
 
-func refTimestamp(w *bw, prefix uint64, base int64) {
+func c12RefTimestamp(w *bw, prefix uint64, base int64) {
 	b := uint64(base)
 	w.put(4, prefix)
 	w.put(3, b>>30)
@@ -50,7 +57,7 @@ func refTimestamp(w *bw, prefix uint64, base int64) {
 	w.put(1, 1)
 }
 
-func refESCR(w *bw, cr *astits.ClockReference) {
+func c12RefESCR(w *bw, cr *astits.ClockReference) {
 	b := uint64(cr.Base)
 	w.put(2, 3) // reserved
 	w.put(3, b>>30)
@@ -63,7 +70,7 @@ func refESCR(w *bw, cr *astits.ClockReference) {
 	w.put(1, 1)
 }
 
-func refDSM(w *bw, m *astits.DSMTrickMode) {
+func c12RefDSM(w *bw, m *astits.DSMTrickMode) {
 	w.put(3, uint64(m.TrickModeControl))
 	switch m.TrickModeControl {
 	case 0, 3: // fast_forward, fast_reverse
@@ -80,19 +87,19 @@ func refDSM(w *bw, m *astits.DSMTrickMode) {
 	}
 }
 
-// refOptHeaderData is PES_header_data without stuffing. packHeader are the pack_header() bytes
+// c12RefOptHeaderData is PES_header_data without stuffing. packHeader are the pack_header() bytes
 // that follow pack_field_length (the library keeps only the length, in PackField).
-func refOptHeaderData(o *astits.PESOptionalHeader, packHeader []byte) []byte {
+func c12RefOptHeaderData(o *astits.PESOptionalHeader, packHeader []byte) []byte {
 	w := &bw{}
 	switch o.PTSDTSIndicator {
 	case 2:
-		refTimestamp(w, 2, o.PTS.Base)
+		c12RefTimestamp(w, 2, o.PTS.Base)
 	case 3:
-		refTimestamp(w, 3, o.PTS.Base)
-		refTimestamp(w, 1, o.DTS.Base)
+		c12RefTimestamp(w, 3, o.PTS.Base)
+		c12RefTimestamp(w, 1, o.DTS.Base)
 	}
 	if o.HasESCR {
-		refESCR(w, o.ESCR)
+		c12RefESCR(w, o.ESCR)
 	}
 	if o.HasESRate {
 		w.put(1, 1)
@@ -100,7 +107,7 @@ func refOptHeaderData(o *astits.PESOptionalHeader, packHeader []byte) []byte {
 		w.put(1, 1)
 	}
 	if o.HasDSMTrickMode {
-		refDSM(w, o.DSMTrickMode)
+		c12RefDSM(w, o.DSMTrickMode)
 	}
 	if o.HasAdditionalCopyInfo {
 		w.put(1, 1)
@@ -144,8 +151,8 @@ func refOptHeaderData(o *astits.PESOptionalHeader, packHeader []byte) []byte {
 	return w.b
 }
 
-// refOptHeader: the two flag bytes, PES_header_data_length, the header data and stuffing bytes.
-func refOptHeader(o *astits.PESOptionalHeader, packHeader []byte, stuffing int) []byte {
+// c12RefOptHeader: the two flag bytes, PES_header_data_length, the header data and stuffing bytes.
+func c12RefOptHeader(o *astits.PESOptionalHeader, packHeader []byte, stuffing int) []byte {
 	w := &bw{}
 	w.put(2, 2)
 	w.put(2, uint64(o.ScramblingControl))
@@ -160,7 +167,7 @@ func refOptHeader(o *astits.PESOptionalHeader, packHeader []byte, stuffing int) 
 	w.flag(o.HasAdditionalCopyInfo)
 	w.flag(o.HasCRC)
 	w.flag(o.HasExtension)
-	data := refOptHeaderData(o, packHeader)
+	data := c12RefOptHeaderData(o, packHeader)
 	w.put(8, uint64(len(data)+stuffing))
 	w.bytes(data)
 	for k := 0; k < stuffing; k++ {
@@ -169,8 +176,8 @@ func refOptHeader(o *astits.PESOptionalHeader, packHeader []byte, stuffing int) 
 	return w.b
 }
 
-// refPES: start code, stream id, PES_packet_length, optional header when hasOpt, then the bytes that follow.
-func refPES(sid uint8, packetLength int, opt []byte, rest []byte) []byte {
+// c12RefPES: start code, stream id, PES_packet_length, optional header when hasOpt, then the bytes that follow.
+func c12RefPES(sid uint8, packetLength int, opt []byte, rest []byte) []byte {
 	w := &bw{}
 	w.put(24, 1)
 	w.put(8, uint64(sid))
@@ -180,11 +187,11 @@ func refPES(sid uint8, packetLength int, opt []byte, rest []byte) []byte {
 	return w.b
 }
 
-// observedOpt fills the fields the parser derives.
-func observedOpt(o *astits.PESOptionalHeader, packHeader []byte, stuffing int) *astits.PESOptionalHeader {
+// c12ObservedOpt fills the fields the parser derives.
+func c12ObservedOpt(o *astits.PESOptionalHeader, packHeader []byte, stuffing int) *astits.PESOptionalHeader {
 	q := *o
 	q.MarkerBits = 2
-	q.HeaderLength = uint8(len(refOptHeaderData(o, packHeader)) + stuffing)
+	q.HeaderLength = uint8(len(c12RefOptHeaderData(o, packHeader)) + stuffing)
 	q.Extension2Length = 0
 	if o.HasExtension && o.HasExtension2 {
 		q.Extension2Length = uint8(len(o.Extension2Data))
@@ -192,9 +199,9 @@ func observedOpt(o *astits.PESOptionalHeader, packHeader []byte, stuffing int) *
 	return &q
 }
 
-// wfOpt: the optional header is inside the property's domain: pointers present iff flags, every field
+// c12WfOpt: the optional header is inside the property's domain: pointers present iff flags, every field
 // within its width, fields of absent parts at their zero value.
-func wfOpt(o *astits.PESOptionalHeader) bool {
+func c12WfOpt(o *astits.PESOptionalHeader) bool {
 	if o.ScramblingControl > 3 || o.PTSDTSIndicator > 3 || o.HasOptionalFields {
 		return false
 	}
@@ -260,24 +267,24 @@ func wfOpt(o *astits.PESOptionalHeader) bool {
 	return true
 }
 
-// writableOpt: inside the domain and without the two parts the writer documents as unsupported.
-func writableOpt(o *astits.PESOptionalHeader) bool {
-	return wfOpt(o) && !o.HasCRC && !o.HasPackHeaderField
+// c12WritableOpt: inside the domain and without the two parts the writer documents as unsupported.
+func c12WritableOpt(o *astits.PESOptionalHeader) bool {
+	return c12WfOpt(o) && !o.HasCRC && !o.HasPackHeaderField
 }
 
-// writableHeader: a header writePESHeader is expected to encode per ISO.
-func writableHeader(h *astits.PESHeader) bool {
-	if libHasOptionalHeader(h.StreamID) != isoHasOptionalHeader(h.StreamID) {
+// c12WritableHeader: a header writePESHeader is expected to encode per ISO.
+func c12WritableHeader(h *astits.PESHeader) bool {
+	if c12LibHasOptionalHeader(h.StreamID) != c12IsoHasOptionalHeader(h.StreamID) {
 		return false // see the final report: ids the library gives an optional header although Table 2-21 has none
 	}
-	if !isoHasOptionalHeader(h.StreamID) {
+	if !c12IsoHasOptionalHeader(h.StreamID) {
 		return h.OptionalHeader == nil
 	}
-	return h.OptionalHeader != nil && writableOpt(h.OptionalHeader)
+	return h.OptionalHeader != nil && c12WritableOpt(h.OptionalHeader)
 }
 
-// refLength: the PES_packet_length rule (0 for video ids 0xE0 / 0xFD or when it does not fit 16 bits).
-func refLength(h *astits.PESHeader, optLen, payload int) int {
+// c12RefLength: the PES_packet_length rule (0 for video ids 0xE0 / 0xFD or when it does not fit 16 bits).
+func c12RefLength(h *astits.PESHeader, optLen, payload int) int {
 	if h.StreamID == 0xe0 || h.StreamID == 0xfd {
 		return 0
 	}
@@ -287,17 +294,17 @@ func refLength(h *astits.PESHeader, optLen, payload int) int {
 	return optLen + payload
 }
 
-// refHeader: what writePESHeader must produce for a writable header and a payload of the given size.
-func refHeader(h *astits.PESHeader, payload int) []byte {
+// c12RefHeader: what writePESHeader must produce for a writable header and a payload of the given size.
+func c12RefHeader(h *astits.PESHeader, payload int) []byte {
 	var opt []byte
-	if isoHasOptionalHeader(h.StreamID) && h.OptionalHeader != nil {
-		opt = refOptHeader(h.OptionalHeader, nil, 0)
+	if c12IsoHasOptionalHeader(h.StreamID) && h.OptionalHeader != nil {
+		opt = c12RefOptHeader(h.OptionalHeader, nil, 0)
 	}
-	return refPES(h.StreamID, refLength(h, len(opt), payload), opt, nil)
+	return c12RefPES(h.StreamID, c12RefLength(h, len(opt), payload), opt, nil)
 }
 
-// getBits reads w bits at bit offset off (MSB first).
-func getBits(bs []byte, off, w int) uint64 {
+// c12GetBits reads w bits at bit offset off (MSB first).
+func c12GetBits(bs []byte, off, w int) uint64 {
 	var v uint64
 	for k := 0; k < w; k++ {
 		p := off + k
@@ -308,7 +315,7 @@ func getBits(bs []byte, off, w int) uint64 {
 
 // ---------- generators ----------
 
-func genDSM(r *Rng, control uint8) *astits.DSMTrickMode {
+func c12GenDSM(r *Rng, control uint8) *astits.DSMTrickMode {
 	m := &astits.DSMTrickMode{TrickModeControl: control}
 	switch control {
 	case 0, 3:
@@ -321,9 +328,9 @@ func genDSM(r *Rng, control uint8) *astits.DSMTrickMode {
 	return m
 }
 
-// genOpt builds a well-formed optional header from the low six bits of the first flag byte, the second flag
+// c12GenOpt builds a well-formed optional header from the low six bits of the first flag byte, the second flag
 // byte and the five extension flags (bit 4 private data, 3 pack header, 2 sequence counter, 1 P-STD, 0 extension 2).
-func genOpt(r *Rng, b0, b1, ext byte) (*astits.PESOptionalHeader, []byte) {
+func c12GenOpt(r *Rng, b0, b1, ext byte) (*astits.PESOptionalHeader, []byte) {
 	o := &astits.PESOptionalHeader{MarkerBits: 2}
 	o.ScramblingControl = b0 >> 4 & 3
 	o.Priority = b0&8 != 0
@@ -344,7 +351,7 @@ func genOpt(r *Rng, b0, b1, ext byte) (*astits.PESOptionalHeader, []byte) {
 		o.HasESRate, o.ESRate = true, uint32(r.Bits(22))
 	}
 	if b1&0x08 != 0 {
-		o.HasDSMTrickMode, o.DSMTrickMode = true, genDSM(r, uint8(r.Intn(8)))
+		o.HasDSMTrickMode, o.DSMTrickMode = true, c12GenDSM(r, uint8(r.Intn(8)))
 	}
 	if b1&0x04 != 0 {
 		o.HasAdditionalCopyInfo, o.AdditionalCopyInfo = true, uint8(r.Bits(7))
@@ -360,7 +367,7 @@ func genOpt(r *Rng, b0, b1, ext byte) (*astits.PESOptionalHeader, []byte) {
 		}
 		if ext&0x08 != 0 {
 			o.HasPackHeaderField = true
-			// pack_field_length 0: the only value the library's reading of this part agrees with (see report)
+			// pack_field_length 0 here; the "pack-header" stream carries real pack headers
 		}
 		if ext&0x04 != 0 {
 			o.HasProgramPacketSequenceCounter = true
@@ -382,20 +389,20 @@ func genOpt(r *Rng, b0, b1, ext byte) (*astits.PESOptionalHeader, []byte) {
 	return o, pack
 }
 
-func genOptRandom(r *Rng, writable bool) *astits.PESOptionalHeader {
+func c12GenOptRandom(r *Rng, writable bool) *astits.PESOptionalHeader {
 	b1 := byte(r.U64())
 	ext := byte(r.Intn(32))
 	if writable {
 		b1 &^= 0x02
 		ext &^= 0x08
 	}
-	o, _ := genOpt(r, byte(r.Intn(64)), b1, ext)
+	o, _ := c12GenOpt(r, byte(r.Intn(64)), b1, ext)
 	return o
 }
 
 // streamIDs used when any id with an optional header will do (audio, video, private_stream_1, the two
 // "video" ids of the length rule).
-func genSID(r *Rng) uint8 {
+func c12GenSID(r *Rng) uint8 {
 	switch r.Intn(6) {
 	case 0:
 		return 0xe0
@@ -410,20 +417,20 @@ func genSID(r *Rng) uint8 {
 	}
 	for {
 		s := uint8(r.U64())
-		if isoHasOptionalHeader(s) {
+		if c12IsoHasOptionalHeader(s) {
 			return s
 		}
 	}
 }
 
-// parseCase builds a (1 bytes expect) case from a well-formed header. lmode: 0 PES_packet_length 0, 1 exact,
+// c12ParseCase builds a (1 bytes expect) case from a well-formed header. lmode: 0 PES_packet_length 0, 1 exact,
 // 2 exact with bytes of a following unit behind it, 3 longer than available, 4 shorter than the header itself.
-func parseCase(r *Rng, sid uint8, o *astits.PESOptionalHeader, pack []byte, stuffing int, payload []byte, lmode int) Tok {
+func c12ParseCase(r *Rng, sid uint8, o *astits.PESOptionalHeader, pack []byte, stuffing int, payload []byte, lmode int) Tok {
 	var opt []byte
 	h := &astits.PESHeader{StreamID: sid}
 	if o != nil {
-		opt = refOptHeader(o, pack, stuffing)
-		h.OptionalHeader = observedOpt(o, pack, stuffing)
+		opt = c12RefOptHeader(o, pack, stuffing)
+		h.OptionalHeader = c12ObservedOpt(o, pack, stuffing)
 	}
 	exact := len(opt) + len(payload)
 	plen := exact
@@ -450,29 +457,29 @@ func parseCase(r *Rng, sid uint8, o *astits.PESOptionalHeader, pack []byte, stuf
 		data = rest
 	}
 	h.PacketLength = uint16(plen)
-	bs := refPES(sid, plen, opt, rest)
+	bs := c12RefPES(sid, plen, opt, rest)
 	if fail {
 		return L(I(1), B(bs), L(I(1)))
 	}
 	return L(I(1), B(bs), L(I(0), ToTok(astits.PESData{Data: data, Header: h})))
 }
 
-func crTok(c *astits.ClockReference) Tok {
+func c12CrTok(c *astits.ClockReference) Tok {
 	if c == nil {
 		return L()
 	}
 	return L(ToTok(*c))
 }
 
-func optTok(o *astits.PESOptionalHeader) Tok {
+func c12OptTok(o *astits.PESOptionalHeader) Tok {
 	if o == nil {
 		return L()
 	}
 	return L(ToTok(*o))
 }
 
-// edgeBases: every single-bit 33-bit value, all-ones, zero.
-func edgeBases() []int64 {
+// c12EdgeBases: every single-bit 33-bit value, all-ones, zero.
+func c12EdgeBases() []int64 {
 	v := []int64{0, 1<<33 - 1, 1<<33 - 2}
 	for k := 0; k < 33; k++ {
 		v = append(v, int64(1)<<uint(k))
@@ -491,24 +498,24 @@ func (c12) Gen(r *Rng, tier string, emit func(string, Tok)) {
 	for sid := 0; sid < 256; sid++ {
 		s := uint8(sid)
 		var o *astits.PESOptionalHeader
-		if libHasOptionalHeader(s) {
-			o = genOptRandom(r, true)
+		if c12LibHasOptionalHeader(s) {
+			o = c12GenOptRandom(r, true)
 		}
-		if libHasOptionalHeader(s) == isoHasOptionalHeader(s) {
+		if c12LibHasOptionalHeader(s) == c12IsoHasOptionalHeader(s) {
 			for lmode := 0; lmode <= 4; lmode++ {
-				emit("sid-parse", parseCase(r, s, o, nil, r.Intn(3), payloadOf(r.Range(0, 20)), lmode))
+				emit("sid-parse", c12ParseCase(r, s, o, nil, r.Intn(3), payloadOf(r.Range(0, 20)), lmode))
 			}
 		} else {
-			// Table 2-21 gives these ids no optional header; the library parses one (reported, not judged here)
-			emit("sid-parse-iso-noopt", L(I(1), B(refPES(s, 8, nil, payloadOf(8)))))
-			emit("sid-parse-iso-noopt", dropExpect(parseCase(r, s, o, nil, 0, payloadOf(r.Range(0, 20)), 1)))
+			// Table 2-21 gives these ids no optional header; the library parses one (tag 2, known finding K4)
+			emit("sid-parse-iso-noopt", c12Tagged(c12ParseCase(r, s, nil, nil, 0, payloadOf(r.Range(3, 20)), sid&1), 2))
+			emit("sid-parse-iso-noopt", c12DropExpect(c12ParseCase(r, s, o, nil, 0, payloadOf(r.Range(0, 20)), 1)))
 		}
 		h := &astits.PESHeader{StreamID: s, OptionalHeader: o}
 		emit("sid-write", L(I(2), ToTok(*h), I(int64(r.Range(0, 400)))))
 		emit("sid-roundtrip", L(I(13), ToTok(*h), B(payloadOf(r.Range(0, 30)))))
-		if !libHasOptionalHeader(s) {
+		if !c12LibHasOptionalHeader(s) {
 			// an optional header given for an id that has none is not written
-			h2 := &astits.PESHeader{StreamID: s, OptionalHeader: genOptRandom(r, true)}
+			h2 := &astits.PESHeader{StreamID: s, OptionalHeader: c12GenOptRandom(r, true)}
 			emit("sid-write", L(I(2), ToTok(*h2), I(int64(r.Range(0, 400)))))
 		}
 	}
@@ -521,14 +528,14 @@ func (c12) Gen(r *Rng, tier string, emit func(string, Tok)) {
 			if k == 0 {
 				b0 = byte(b1 & 63)
 			}
-			o, pack := genOpt(r, b0, byte(b1), byte(r.Intn(32))&^0x08)
-			emit("flags-parse", parseCase(r, genSID(r), o, pack, r.Intn(3), payloadOf(r.Range(0, 12)), r.Intn(3)))
+			o, pack := c12GenOpt(r, b0, byte(b1), byte(r.Intn(32))&^0x08)
+			emit("flags-parse", c12ParseCase(r, c12GenSID(r), o, pack, r.Intn(3), payloadOf(r.Range(0, 12)), r.Intn(3)))
 			// the writer gets the same header: CRC flag set is outside "writable", still compared with the model
-			h := &astits.PESHeader{StreamID: genSID(r), OptionalHeader: o}
+			h := &astits.PESHeader{StreamID: c12GenSID(r), OptionalHeader: o}
 			if k == 0 {
 				emit("flags-write", L(I(2), ToTok(*h), I(int64(r.Range(0, 70000)))))
-				emit("flags-optwrite", L(I(4), optTok(o)))
-				emit("flags-calc", L(I(12), optTok(o)))
+				emit("flags-optwrite", L(I(4), c12OptTok(o)))
+				emit("flags-calc", L(I(12), c12OptTok(o)))
 			} else {
 				emit("flags-roundtrip", L(I(13), ToTok(*h), B(payloadOf(r.Range(0, 12)))))
 			}
@@ -539,57 +546,63 @@ func (c12) Gen(r *Rng, tier string, emit func(string, Tok)) {
 	// --- all 32 extension-flag subsets
 	for ext := 0; ext < 32; ext++ {
 		for k := 0; k < 3*scale; k++ {
-			o, pack := genOpt(r, byte(r.Intn(64)), byte(r.U64())|1, byte(ext))
-			emit("ext-parse", parseCase(r, genSID(r), o, pack, r.Intn(4), payloadOf(r.Range(0, 12)), r.Intn(3)))
-			h := &astits.PESHeader{StreamID: genSID(r), OptionalHeader: o}
+			o, pack := c12GenOpt(r, byte(r.Intn(64)), byte(r.U64())|1, byte(ext))
+			emit("ext-parse", c12ParseCase(r, c12GenSID(r), o, pack, r.Intn(4), payloadOf(r.Range(0, 12)), r.Intn(3)))
+			h := &astits.PESHeader{StreamID: c12GenSID(r), OptionalHeader: o}
 			emit("ext-roundtrip", L(I(13), ToTok(*h), B(payloadOf(r.Range(0, 12)))))
 		}
 	}
 	sweep("all 2^5 PES extension flag subsets")
+	// pack_header_field with pack_field_length > 0 followed by the pack_header() bytes (tag 1)
+	for k := 0; k < 16*scale; k++ {
+		o, _ := c12GenOpt(r, byte(r.Intn(64)), byte(r.U64())|1, byte(r.Intn(32))|0x08)
+		o.PackField = uint8(r.Range(1, 14))
+		emit("pack-header", c12Tagged(c12ParseCase(r, c12GenSID(r), o, r.Bytes(int(o.PackField)), r.Intn(3), payloadOf(r.Range(0, 12)), r.Intn(3)), 1))
+	}
 
 	// --- extension 2 length 0..127, header stuffing 0..32
 	for n := 0; n <= 127; n++ {
-		o, _ := genOpt(r, byte(r.Intn(64)), byte(r.U64())&^0x02|1, byte(r.Intn(32))&^0x08|1)
+		o, _ := c12GenOpt(r, byte(r.Intn(64)), byte(r.U64())&^0x02|1, byte(r.Intn(32))&^0x08|1)
 		o.Extension2Data = r.Bytes(n)
-		emit("ext2-len", parseCase(r, genSID(r), o, nil, r.Intn(2), payloadOf(r.Range(0, 8)), r.Intn(3)))
-		h := &astits.PESHeader{StreamID: genSID(r), OptionalHeader: o}
+		emit("ext2-len", c12ParseCase(r, c12GenSID(r), o, nil, r.Intn(2), payloadOf(r.Range(0, 8)), r.Intn(3)))
+		h := &astits.PESHeader{StreamID: c12GenSID(r), OptionalHeader: o}
 		emit("ext2-len", L(I(13), ToTok(*h), B(payloadOf(r.Range(0, 8)))))
 	}
 	sweep("PES_extension_field_length 0..127")
 	for st := 0; st <= 32; st++ {
 		for k := 0; k < 2*scale; k++ {
-			o := genOptRandom(r, false)
+			o := c12GenOptRandom(r, false)
 			o.HasPackHeaderField = false
-			emit("stuffing", parseCase(r, genSID(r), o, nil, st, payloadOf(r.Range(0, 8)), r.Intn(5)))
+			emit("stuffing", c12ParseCase(r, c12GenSID(r), o, nil, st, payloadOf(r.Range(0, 8)), r.Intn(5)))
 		}
 	}
 	sweep("header stuffing 0..32 bytes")
 
 	// --- timestamps: every single-bit value, all-ones; ESCR extension every single bit
-	for i, base := range edgeBases() {
-		other := edgeBases()[(i*7+3)%36]
+	for i, base := range c12EdgeBases() {
+		other := c12EdgeBases()[(i*7+3)%36]
 		ext := int64(1) << uint(i%9)
 		if i%10 == 9 {
 			ext = 511
 		}
 		o := &astits.PESOptionalHeader{MarkerBits: 2, PTSDTSIndicator: 3, PTS: &astits.ClockReference{Base: base}, DTS: &astits.ClockReference{Base: other},
 			HasESCR: true, ESCR: &astits.ClockReference{Base: (1<<33 - 1) ^ base, Extension: ext}}
-		emit("ts-parse", parseCase(r, genSID(r), o, nil, 0, payloadOf(4), 1))
+		emit("ts-parse", c12ParseCase(r, c12GenSID(r), o, nil, 0, payloadOf(4), 1))
 		emit("ts-roundtrip", L(I(13), ToTok(astits.PESHeader{StreamID: 0xc0, OptionalHeader: o}), B(payloadOf(4))))
 		o2 := &astits.PESOptionalHeader{MarkerBits: 2, PTSDTSIndicator: 2, PTS: &astits.ClockReference{Base: base}}
-		emit("ts-parse", parseCase(r, genSID(r), o2, nil, 0, payloadOf(4), 0))
+		emit("ts-parse", c12ParseCase(r, c12GenSID(r), o2, nil, 0, payloadOf(4), 0))
 		emit("ts-roundtrip", L(I(13), ToTok(astits.PESHeader{StreamID: 0xe0, OptionalHeader: o2}), B(payloadOf(4))))
 		for _, flag := range []int64{1, 2, 3} {
 			w := &bw{}
-			refTimestamp(w, uint64(flag), base)
+			c12RefTimestamp(w, uint64(flag), base)
 			emit("ts-pts", L(I(6), B(w.b)))
-			emit("ts-pts", L(I(7), I(flag), crTok(&astits.ClockReference{Base: base})))
+			emit("ts-pts", L(I(7), I(flag), c12CrTok(&astits.ClockReference{Base: base})))
 		}
 		cr := &astits.ClockReference{Base: base, Extension: ext}
 		w := &bw{}
-		refESCR(w, cr)
+		c12RefESCR(w, cr)
 		emit("ts-escr", L(I(8), B(w.b)))
-		emit("ts-escr", L(I(9), crTok(cr)))
+		emit("ts-escr", L(I(9), c12CrTok(cr)))
 		emit("duration", L(I(5), ToTok(*cr)))
 		emit("duration", L(I(5), ToTok(astits.ClockReference{Base: base, Extension: 511 - ext})))
 	}
@@ -598,8 +611,8 @@ func (c12) Gen(r *Rng, tier string, emit func(string, Tok)) {
 		emit("ts-pts", L(I(6), B(r.Bytes(r.Range(3, 7)))))
 		emit("ts-escr", L(I(8), B(r.Bytes(r.Range(4, 8)))))
 		cr := genCR(r, 9)
-		emit("ts-pts", L(I(7), I(int64(r.Intn(16))), crTok(cr)))
-		emit("ts-escr", L(I(9), crTok(cr)))
+		emit("ts-pts", L(I(7), I(int64(r.Intn(16))), c12CrTok(cr)))
+		emit("ts-escr", L(I(9), c12CrTok(cr)))
 		emit("duration", L(I(5), ToTok(*cr)))
 		emit("duration", L(I(5), ToTok(astits.ClockReference{Base: int64(r.U64() >> 31), Extension: int64(r.Intn(512))})))
 	}
@@ -628,20 +641,20 @@ func (c12) Gen(r *Rng, tier string, emit func(string, Tok)) {
 	}
 	for _, v := range rates {
 		o := &astits.PESOptionalHeader{MarkerBits: 2, HasESRate: true, ESRate: v}
-		emit("esrate", parseCase(r, genSID(r), o, nil, 0, payloadOf(3), 1))
+		emit("esrate", c12ParseCase(r, c12GenSID(r), o, nil, 0, payloadOf(3), 1))
 		emit("esrate", L(I(13), ToTok(astits.PESHeader{StreamID: 0xc1, OptionalHeader: o}), B(payloadOf(3))))
 	}
 
 	// --- all 256 trick-mode bytes
 	for b := 0; b < 256; b++ {
 		emit("dsm-byte", L(I(10), I(int64(b))))
-		m := refDecodeDSM(byte(b))
+		m := c12RefDecodeDSM(byte(b))
 		emit("dsm-write", L(I(11), L(ToTok(*m))))
 		o := &astits.PESOptionalHeader{MarkerBits: 2, HasDSMTrickMode: true, DSMTrickMode: m}
 		// the byte itself inside a header (reserved bits as they come), and the reference encoding of its fields
-		raw := refPES(0xe0, 0, []byte{0x80, 0x08, 0x01, byte(b)}, payloadOf(2))
+		raw := c12RefPES(0xe0, 0, []byte{0x80, 0x08, 0x01, byte(b)}, payloadOf(2))
 		emit("dsm-parse-raw", L(I(1), B(raw)))
-		emit("dsm-parse", parseCase(r, genSID(r), o, nil, 0, payloadOf(2), 1))
+		emit("dsm-parse", c12ParseCase(r, c12GenSID(r), o, nil, 0, payloadOf(2), 1))
 		emit("dsm-roundtrip", L(I(13), ToTok(astits.PESHeader{StreamID: 0xe0, OptionalHeader: o}), B(payloadOf(2))))
 	}
 	emit("dsm-write", L(I(11), L()))
@@ -667,7 +680,7 @@ func (c12) Gen(r *Rng, tier string, emit func(string, Tok)) {
 	}
 	for _, v := range crcs {
 		o := &astits.PESOptionalHeader{MarkerBits: 2, HasCRC: true, CRC: v}
-		emit("crc", parseCase(r, genSID(r), o, nil, 0, payloadOf(2), 1))
+		emit("crc", c12ParseCase(r, c12GenSID(r), o, nil, 0, payloadOf(2), 1))
 	}
 
 	// --- additional copy info, sequence counter, P-STD at all values of the small fields
@@ -675,21 +688,21 @@ func (c12) Gen(r *Rng, tier string, emit func(string, Tok)) {
 		o := &astits.PESOptionalHeader{MarkerBits: 2, HasAdditionalCopyInfo: true, AdditionalCopyInfo: uint8(v), HasExtension: true,
 			HasProgramPacketSequenceCounter: true, PacketSequenceCounter: uint8(127 - v), MPEG1OrMPEG2ID: uint8(v & 1), OriginalStuffingLength: uint8(v >> 1),
 			HasPSTDBuffer: true, PSTDBufferScale: uint8(v >> 6), PSTDBufferSize: uint16(r.Bits(13))}
-		emit("small-fields", parseCase(r, genSID(r), o, nil, 0, payloadOf(2), 1))
+		emit("small-fields", c12ParseCase(r, c12GenSID(r), o, nil, 0, payloadOf(2), 1))
 		emit("small-fields", L(I(13), ToTok(astits.PESHeader{StreamID: 0xc0, OptionalHeader: o}), B(payloadOf(2))))
 	}
 
 	// --- PES_packet_length rule of the writer: around 65535, video ids, with and without optional header
 	for k := 0; k < 60*scale; k++ {
-		h := &astits.PESHeader{StreamID: genSID(r)}
+		h := &astits.PESHeader{StreamID: c12GenSID(r)}
 		if r.Chance(1, 8) {
 			h.StreamID = 0xbe + uint8(r.Intn(2))
 		} else {
-			h.OptionalHeader = genOptRandom(r, true)
+			h.OptionalHeader = c12GenOptRandom(r, true)
 		}
 		n := 0
 		if h.OptionalHeader != nil {
-			n = len(refOptHeader(h.OptionalHeader, nil, 0))
+			n = len(c12RefOptHeader(h.OptionalHeader, nil, 0))
 		}
 		size := 65535 - n + r.Range(-2, 2)
 		if r.Chance(1, 4) {
@@ -709,11 +722,11 @@ func (c12) Gen(r *Rng, tier string, emit func(string, Tok)) {
 
 	// --- writePESData: bytesAvailable below / at / above the header size, payload shorter / longer than the room
 	for k := 0; k < 300*scale; k++ {
-		h := &astits.PESHeader{StreamID: genSID(r), OptionalHeader: genOptRandom(r, true)}
+		h := &astits.PESHeader{StreamID: c12GenSID(r), OptionalHeader: c12GenOptRandom(r, true)}
 		if r.Chance(1, 10) {
 			h.StreamID, h.OptionalHeader = 0xbf, nil
 		}
-		hl := len(refHeader(h, 0))
+		hl := len(c12RefHeader(h, 0))
 		p := payloadOf(r.Range(0, 300))
 		start := r.Chance(3, 4)
 		var avail int
@@ -734,7 +747,7 @@ func (c12) Gen(r *Rng, tier string, emit func(string, Tok)) {
 
 	// --- writer outside its domain: nil behind flags, wrong private-data sizes, oversize extension 2, unsupported flags, wide values
 	for k := 0; k < 300*scale; k++ {
-		o := genOptRandom(r, false)
+		o := c12GenOptRandom(r, false)
 		switch r.Intn(10) {
 		case 0:
 			o.PTS = nil
@@ -770,12 +783,12 @@ func (c12) Gen(r *Rng, tier string, emit func(string, Tok)) {
 				o.ESCR.Base, o.ESCR.Extension = -int64(r.Bits(34)), int64(r.U64()>>40)
 			}
 		}
-		h := astits.PESHeader{StreamID: genSID(r), OptionalHeader: o}
+		h := astits.PESHeader{StreamID: c12GenSID(r), OptionalHeader: o}
 		switch r.Intn(4) {
 		case 0:
-			emit("write-any", L(I(4), optTok(o)))
+			emit("write-any", L(I(4), c12OptTok(o)))
 		case 1:
-			emit("write-any", L(I(12), optTok(o)))
+			emit("write-any", L(I(12), c12OptTok(o)))
 		case 2:
 			emit("write-any", L(I(2), ToTok(h), I(int64(r.Range(-5, 70000)))))
 		default:
@@ -789,16 +802,16 @@ func (c12) Gen(r *Rng, tier string, emit func(string, Tok)) {
 
 	// --- malformed input for the parser: truncation at every offset, bit flips, random bytes
 	for k := 0; k < 12*scale; k++ {
-		o := genOptRandom(r, false)
-		c := parseCase(r, genSID(r), o, nil, r.Intn(3), payloadOf(r.Range(0, 6)), 1)
+		o := c12GenOptRandom(r, false)
+		c := c12ParseCase(r, c12GenSID(r), o, nil, r.Intn(3), payloadOf(r.Range(0, 6)), 1)
 		bs := c.At(1).Bytes()
 		for cut := 0; cut <= len(bs); cut++ {
 			emit("truncated", L(I(1), B(append([]byte{}, bs[:cut]...))))
 		}
 	}
 	for k := 0; k < 500*scale; k++ {
-		o := genOptRandom(r, false)
-		c := parseCase(r, genSID(r), o, nil, r.Intn(3), payloadOf(r.Range(0, 20)), r.Intn(3))
+		o := c12GenOptRandom(r, false)
+		c := c12ParseCase(r, c12GenSID(r), o, nil, r.Intn(3), payloadOf(r.Range(0, 20)), r.Intn(3))
 		bs := append([]byte{}, c.At(1).Bytes()...)
 		for f := r.Range(1, 3); f > 0; f-- {
 			p := r.Intn(len(bs))
@@ -821,27 +834,30 @@ func (c12) Gen(r *Rng, tier string, emit func(string, Tok)) {
 	}
 }
 
-// dropExpect drops the oracle's expectation from a parse case.
-func dropExpect(t Tok) Tok { return L(t.At(0), t.At(1)) }
+// c12Tagged marks a parse case as belonging to a recorded deviation.
+func c12Tagged(t Tok, tag int64) Tok { return L(t.At(0), t.At(1), t.At(2), I(tag)) }
 
-// refDecodeDSM: the trick mode byte per 2.4.3.7, by bit position.
-func refDecodeDSM(b byte) *astits.DSMTrickMode {
+// c12DropExpect drops the oracle's expectation from a parse case.
+func c12DropExpect(t Tok) Tok { return L(t.At(0), t.At(1)) }
+
+// c12RefDecodeDSM: the trick mode byte per 2.4.3.7, by bit position.
+func c12RefDecodeDSM(b byte) *astits.DSMTrickMode {
 	bs := []byte{b}
-	m := &astits.DSMTrickMode{TrickModeControl: uint8(getBits(bs, 0, 3))}
+	m := &astits.DSMTrickMode{TrickModeControl: uint8(c12GetBits(bs, 0, 3))}
 	switch m.TrickModeControl {
 	case 0, 3:
-		m.FieldID, m.IntraSliceRefresh, m.FrequencyTruncation = uint8(getBits(bs, 3, 2)), uint8(getBits(bs, 5, 1)), uint8(getBits(bs, 6, 2))
+		m.FieldID, m.IntraSliceRefresh, m.FrequencyTruncation = uint8(c12GetBits(bs, 3, 2)), uint8(c12GetBits(bs, 5, 1)), uint8(c12GetBits(bs, 6, 2))
 	case 1, 4:
-		m.RepeatControl = uint8(getBits(bs, 3, 5))
+		m.RepeatControl = uint8(c12GetBits(bs, 3, 5))
 	case 2:
-		m.FieldID = uint8(getBits(bs, 3, 2))
+		m.FieldID = uint8(c12GetBits(bs, 3, 2))
 	}
 	return m
 }
 
 // ---------- implementation runner ----------
 
-func itemsN(s *sinkWriter, n int, err error) Tok {
+func c12ItemsN(s *sinkWriter, n int, err error) Tok {
 	return resOf(func() Tok { return L(B(s.accepted), I(int64(n))) }, err)
 }
 
@@ -858,7 +874,7 @@ func (c12) Run(c Tok) Tok {
 			FromTok(c.At(1), &h)
 			s := &sinkWriter{failAt: -1}
 			n, err := astits.VerifWritePESHeader(s, &h, int(c.At(2).Int()))
-			return itemsN(s, n, err)
+			return c12ItemsN(s, n, err)
 		})
 	case 3:
 		return guard(func() Tok {
@@ -874,7 +890,7 @@ func (c12) Run(c Tok) Tok {
 			FromTok(c.At(1), &o)
 			s := &sinkWriter{failAt: -1}
 			n, err := astits.VerifWritePESOptionalHeader(s, o)
-			return itemsN(s, n, err)
+			return c12ItemsN(s, n, err)
 		})
 	case 5:
 		var cr astits.ClockReference
@@ -891,7 +907,7 @@ func (c12) Run(c Tok) Tok {
 			FromTok(c.At(2), &cr)
 			s := &sinkWriter{failAt: -1}
 			n, err := astits.VerifWritePTSOrDTS(s, uint8(c.At(1).Int()), cr)
-			return itemsN(s, n, err)
+			return c12ItemsN(s, n, err)
 		})
 	case 8:
 		return guard(func() Tok {
@@ -904,7 +920,7 @@ func (c12) Run(c Tok) Tok {
 			FromTok(c.At(1), &cr)
 			s := &sinkWriter{failAt: -1}
 			n, err := astits.VerifWriteESCR(s, cr)
-			return itemsN(s, n, err)
+			return c12ItemsN(s, n, err)
 		})
 	case 10:
 		return ToTok(*astits.VerifParseDSMTrickMode(byte(c.At(1).Int())))
@@ -914,7 +930,7 @@ func (c12) Run(c Tok) Tok {
 			FromTok(c.At(1), &m)
 			s := &sinkWriter{failAt: -1}
 			n, err := astits.VerifWriteDSMTrickMode(s, m)
-			return itemsN(s, n, err)
+			return c12ItemsN(s, n, err)
 		})
 	case 12:
 		var o *astits.PESOptionalHeader
@@ -944,15 +960,15 @@ func (c12) Run(c Tok) Tok {
 
 // ---------- implementation-side oracle ----------
 
-// payloadRule checks "payload boundaries follow PES_packet_length" on any input the parser accepted, from the bytes alone.
-func payloadRule(in []byte, d *astits.PESData) string {
+// c12PayloadRule checks "payload boundaries follow PES_packet_length" on any input the parser accepted, from the bytes alone.
+func c12PayloadRule(in []byte, d *astits.PESData) string {
 	if len(in) < 6 || d.Header == nil {
 		return "parsePESData succeeded on fewer than 6 bytes"
 	}
 	if d.Header.StreamID != in[3] {
 		return fmt.Sprintf("stream_id %#x decoded as %#x", in[3], d.Header.StreamID)
 	}
-	plen := int(getBits(in, 32, 16))
+	plen := int(c12GetBits(in, 32, 16))
 	if int(d.Header.PacketLength) != plen {
 		return fmt.Sprintf("PES_packet_length %d decoded as %d", plen, d.Header.PacketLength)
 	}
@@ -979,7 +995,7 @@ func payloadRule(in []byte, d *astits.PESData) string {
 	return ""
 }
 
-func durationRef(cr astits.ClockReference) *big.Int {
+func c12DurationRef(cr astits.ClockReference) *big.Int {
 	a := new(big.Int).Mul(big.NewInt(cr.Base), big.NewInt(1000000000))
 	a.Quo(a, big.NewInt(90000))
 	b := new(big.Int).Mul(big.NewInt(cr.Extension), big.NewInt(1000000000))
@@ -994,47 +1010,55 @@ func (c12) Oracle(c Tok, obs Tok) string {
 		if obs.At(0).Int() == 0 {
 			var d astits.PESData
 			FromTok(obs.At(1), &d)
-			if w := payloadRule(in, &d); w != "" {
+			if w := c12PayloadRule(in, &d); w != "" {
 				return w
 			}
 		}
 		if len(c.L) < 3 {
 			return ""
 		}
+		if len(c.L) >= 4 {
+			tag := c.At(3).Int()
+			w := c12{}.Oracle(L(c.At(0), c.At(1), c.At(2)), obs)
+			if w == "" {
+				return ""
+			}
+			return c12TagName[tag] + ": " + w
+		}
 		exp := c.At(2)
 		if exp.At(0).Int() == 1 {
 			if obs.At(0).Int() != 1 {
-				return fmt.Sprintf("PES_packet_length points outside the available bytes (or inside the header) but parsePESData returned %s", clip(obs.String()))
+				return fmt.Sprintf("PES_packet_length points outside the available bytes (or inside the header) but parsePESData returned %s", c12Clip(obs.String()))
 			}
 			return ""
 		}
 		if obs.At(0).Int() != 0 {
-			return "parsePESData rejects the ISO 13818-1 reference encoding of a well-formed PES packet: " + clip(obs.String())
+			return "parsePESData rejects the ISO 13818-1 reference encoding of a well-formed PES packet: " + c12Clip(obs.String())
 		}
 		if got, want := obs.At(1).String(), exp.At(1).String(); got != want {
-			return fmt.Sprintf("parsePESData(reference encoding) differs from the encoded value: got %s want %s", clip(got), clip(want))
+			return fmt.Sprintf("parsePESData(reference encoding) differs from the encoded value: got %s want %s", c12Clip(got), c12Clip(want))
 		}
 	case 2:
 		var h astits.PESHeader
 		FromTok(c.At(1), &h)
 		size := int(c.At(2).Int())
-		if size < 0 || !writableHeader(&h) {
+		if size < 0 || !c12WritableHeader(&h) {
 			return ""
 		}
-		ref := refHeader(&h, size)
-		return cmpWrite("writePESHeader", obs, ref, len(ref))
+		ref := c12RefHeader(&h, size)
+		return c12CmpWrite("writePESHeader", obs, ref, len(ref))
 	case 3:
 		var h astits.PESHeader
 		FromTok(c.At(1), &h)
 		p := c.At(2).Bytes()
 		start := c.At(3).IsTrue()
 		avail := int(c.At(4).Int())
-		if !writableHeader(&h) {
+		if !c12WritableHeader(&h) {
 			return ""
 		}
 		var ref []byte
 		if start {
-			ref = refHeader(&h, len(p))
+			ref = c12RefHeader(&h, len(p))
 		}
 		room := avail - len(ref)
 		if room < 0 {
@@ -1045,11 +1069,11 @@ func (c12) Oracle(c Tok, obs Tok) string {
 		}
 		want := append(append([]byte{}, ref...), p[:room]...)
 		if obs.At(0).Int() != 0 {
-			return "writePESData fails on a writable header: " + clip(obs.String())
+			return "writePESData fails on a writable header: " + c12Clip(obs.String())
 		}
 		v := obs.At(1)
 		if !eqBytes(v.At(0).Bytes(), want) {
-			return fmt.Sprintf("writePESData output differs from reference header ++ payload prefix: got %x want %x", clipB(v.At(0).Bytes()), clipB(want))
+			return fmt.Sprintf("writePESData output differs from reference header ++ payload prefix: got %x want %x", c12ClipB(v.At(0).Bytes()), c12ClipB(want))
 		}
 		if v.At(1).Int() != int64(len(want)) || v.At(2).Int() != int64(room) {
 			return fmt.Sprintf("writePESData reports (%d, %d) for %d bytes of which %d payload", v.At(1).Int(), v.At(2).Int(), len(want), room)
@@ -1057,18 +1081,18 @@ func (c12) Oracle(c Tok, obs Tok) string {
 	case 4:
 		var o *astits.PESOptionalHeader
 		FromTok(c.At(1), &o)
-		if o == nil || !writableOpt(o) {
+		if o == nil || !c12WritableOpt(o) {
 			return ""
 		}
-		ref := refOptHeader(o, nil, 0)
-		return cmpWrite("writePESOptionalHeader", obs, ref, len(ref))
+		ref := c12RefOptHeader(o, nil, 0)
+		return c12CmpWrite("writePESOptionalHeader", obs, ref, len(ref))
 	case 5:
 		var cr astits.ClockReference
 		FromTok(c.At(1), &cr)
 		if cr.Base < 0 || cr.Base >= 1<<33 || cr.Extension < 0 || cr.Extension >= 1<<9 {
 			return ""
 		}
-		want := durationRef(cr)
+		want := c12DurationRef(cr)
 		if obs.Kind != 'i' || obs.I.Cmp(want) != 0 {
 			return fmt.Sprintf("Duration() = %s, base/90kHz + extension/27MHz truncated per term = %s", obs.String(), want.String())
 		}
@@ -1080,7 +1104,7 @@ func (c12) Oracle(c Tok, obs Tok) string {
 			}
 			return ""
 		}
-		base := getBits(in, 4, 3)<<30 | getBits(in, 8, 15)<<15 | getBits(in, 24, 15)
+		base := c12GetBits(in, 4, 3)<<30 | c12GetBits(in, 8, 15)<<15 | c12GetBits(in, 24, 15)
 		want := ResOk(ToTok(astits.ClockReference{Base: int64(base)})).String()
 		if obs.String() != want {
 			return fmt.Sprintf("parsePTSOrDTS(%x) = %s, layout 4/3/1/15/1/15/1 gives %s", in, obs.String(), want)
@@ -1093,8 +1117,8 @@ func (c12) Oracle(c Tok, obs Tok) string {
 			return ""
 		}
 		w := &bw{}
-		refTimestamp(w, uint64(flag), cr.Base)
-		return cmpWrite("writePTSOrDTS", obs, w.b, 5)
+		c12RefTimestamp(w, uint64(flag), cr.Base)
+		return c12CmpWrite("writePTSOrDTS", obs, w.b, 5)
 	case 8:
 		in := c.At(1).Bytes()
 		if len(in) < 6 {
@@ -1103,8 +1127,8 @@ func (c12) Oracle(c Tok, obs Tok) string {
 			}
 			return ""
 		}
-		base := getBits(in, 2, 3)<<30 | getBits(in, 6, 15)<<15 | getBits(in, 22, 15)
-		want := ResOk(ToTok(astits.ClockReference{Base: int64(base), Extension: int64(getBits(in, 38, 9))})).String()
+		base := c12GetBits(in, 2, 3)<<30 | c12GetBits(in, 6, 15)<<15 | c12GetBits(in, 22, 15)
+		want := ResOk(ToTok(astits.ClockReference{Base: int64(base), Extension: int64(c12GetBits(in, 38, 9))})).String()
 		if obs.String() != want {
 			return fmt.Sprintf("parseESCR(%x) = %s, layout 2/3/1/15/1/15/1/9/1 gives %s", in, obs.String(), want)
 		}
@@ -1115,10 +1139,10 @@ func (c12) Oracle(c Tok, obs Tok) string {
 			return ""
 		}
 		w := &bw{}
-		refESCR(w, cr)
-		return cmpWrite("writeESCR", obs, w.b, 6)
+		c12RefESCR(w, cr)
+		return c12CmpWrite("writeESCR", obs, w.b, 6)
 	case 10:
-		want := ToTok(*refDecodeDSM(byte(c.At(1).Int()))).String()
+		want := ToTok(*c12RefDecodeDSM(byte(c.At(1).Int()))).String()
 		if obs.String() != want {
 			return fmt.Sprintf("parseDSMTrickMode(%#x) = %s, 2.4.3.7 gives %s", c.At(1).Int(), obs.String(), want)
 		}
@@ -1129,12 +1153,12 @@ func (c12) Oracle(c Tok, obs Tok) string {
 			return ""
 		}
 		o := astits.PESOptionalHeader{HasDSMTrickMode: true, DSMTrickMode: m}
-		if !wfOpt(&o) {
+		if !c12WfOpt(&o) {
 			return ""
 		}
 		w := &bw{}
-		refDSM(w, m)
-		return cmpWrite("writeDSMTrickMode", obs, w.b, 1)
+		c12RefDSM(w, m)
+		return c12CmpWrite("writeDSMTrickMode", obs, w.b, 1)
 	case 12:
 		var o *astits.PESOptionalHeader
 		FromTok(c.At(1), &o)
@@ -1144,44 +1168,44 @@ func (c12) Oracle(c Tok, obs Tok) string {
 			}
 			return ""
 		}
-		if !writableOpt(o) {
+		if !c12WritableOpt(o) {
 			return ""
 		}
-		if want := len(refOptHeader(o, nil, 0)); obs.Int() != int64(want) {
+		if want := len(c12RefOptHeader(o, nil, 0)); obs.Int() != int64(want) {
 			return fmt.Sprintf("calcPESOptionalHeaderLength = %d, the reference encoding has %d bytes", obs.Int(), want)
 		}
 	case 13:
 		var h astits.PESHeader
 		FromTok(c.At(1), &h)
 		payload := c.At(2).Bytes()
-		if !writableHeader(&h) {
+		if !c12WritableHeader(&h) {
 			return ""
 		}
 		if obs.At(0).Int() != 0 {
-			return "writePESHeader fails on a writable header: " + clip(obs.String())
+			return "writePESHeader fails on a writable header: " + c12Clip(obs.String())
 		}
-		ref := refHeader(&h, len(payload))
+		ref := c12RefHeader(&h, len(payload))
 		if !eqBytes(obs.At(1).Bytes(), ref) || obs.At(2).Int() != int64(len(ref)) {
 			return fmt.Sprintf("writePESHeader output differs from the ISO 13818-1 reference encoding: got %x (n=%d) want %x", obs.At(1).Bytes(), obs.At(2).Int(), ref)
 		}
-		want := astits.PESData{Data: payload, Header: &astits.PESHeader{StreamID: h.StreamID, PacketLength: uint16(getBits(ref, 32, 16))}}
-		if h.OptionalHeader != nil && isoHasOptionalHeader(h.StreamID) {
-			want.Header.OptionalHeader = observedOpt(h.OptionalHeader, nil, 0)
+		want := astits.PESData{Data: payload, Header: &astits.PESHeader{StreamID: h.StreamID, PacketLength: uint16(c12GetBits(ref, 32, 16))}}
+		if h.OptionalHeader != nil && c12IsoHasOptionalHeader(h.StreamID) {
+			want.Header.OptionalHeader = c12ObservedOpt(h.OptionalHeader, nil, 0)
 		}
 		p := obs.At(3)
 		if p.At(0).Int() != 0 {
-			return "parsePESData rejects what writePESHeader wrote: " + clip(p.String())
+			return "parsePESData rejects what writePESHeader wrote: " + c12Clip(p.String())
 		}
 		if got, w := p.At(1).String(), ToTok(want).String(); got != w {
-			return fmt.Sprintf("parsePESData(writePESHeader(v) ++ payload) differs from v: got %s want %s", clip(got), clip(w))
+			return fmt.Sprintf("parsePESData(writePESHeader(v) ++ payload) differs from v: got %s want %s", c12Clip(got), c12Clip(w))
 		}
 	}
 	return ""
 }
 
-func cmpWrite(name string, obs Tok, ref []byte, n int) string {
+func c12CmpWrite(name string, obs Tok, ref []byte, n int) string {
 	if obs.At(0).Int() != 0 {
-		return name + " fails inside its domain: " + clip(obs.String())
+		return name + " fails inside its domain: " + c12Clip(obs.String())
 	}
 	v := obs.At(1)
 	if !eqBytes(v.At(0).Bytes(), ref) {
@@ -1193,14 +1217,14 @@ func cmpWrite(name string, obs Tok, ref []byte, n int) string {
 	return ""
 }
 
-func clip(s string) string {
+func c12Clip(s string) string {
 	if len(s) > 600 {
 		return s[:600] + "..."
 	}
 	return s
 }
 
-func clipB(b []byte) []byte {
+func c12ClipB(b []byte) []byte {
 	if len(b) > 64 {
 		return b[:64]
 	}
@@ -1214,3 +1238,11 @@ func (c12) Nontrivial(c Tok, obs Tok) bool {
 	}
 	return obs.At(0).Int() == 0
 }
+
+// Names other properties' generators use (go/harness/mux.go builds PES headers for the muxer with them).
+func writableHeader(h *astits.PESHeader) bool { return c12WritableHeader(h) }
+func genSID(r *Rng) uint8                     { return c12GenSID(r) }
+func genOptRandom(r *Rng, writable bool) *astits.PESOptionalHeader {
+	return c12GenOptRandom(r, writable)
+}
+func writableOpt(o *astits.PESOptionalHeader) bool { return c12WritableOpt(o) }
